@@ -958,11 +958,11 @@ theorem two_member_union_all_ends_iff (m1 m2 : List Row → List Row) (g : List 
 example (t : String) (g : List Row) :
     (({ recName := none, working := none, ctes := [t], temps := [t] } : NameScope).forStep t g
       |>.deriveAll [.record, .node [t], .record]).denotes t = .previousIteration g :=
-  recursive_reference_any_depth _ t t g _ (by simp [eqFold])
+  recursive_reference_any_depth _ t t g _ (by simp)
 example (t : String) : (({ recName := none, working := none, ctes := [], temps := [t] } : NameScope).forAnchor t
     |>.deriveAll [.record]).denotes t = .object .temp := by
   rw [anchor_reference_is_outer]
-  simp [NameScope.deriveAll, NameScope.forAnchor, NameScope.forRecQuery, NameScope.derive, tableKind, nameIn, eqFold]
+  simp [NameScope.deriveAll, NameScope.forAnchor, NameScope.forRecQuery, NameScope.derive, tableKind, nameIn]
 
 /-- a condition without open references evaluates, with the short-circuits of eval.go, to the total value -/
 theorem lazy_eval_agrees (subs : SubEnv) (lw : Nat) (r : Row) (c : CondE) (h : condPure c = true) :
@@ -1446,14 +1446,14 @@ example : recursiveUnionImpl (fun r => r.map (fun p => p.int?))
       (fun g => (g.filter (fun r => r != [cI 3])).map (fun r => if r == [cI 1] then [cI 2] else [cI 3])) 9 [[cI 1], [cI 1]]
     = some [[cI 1], [cI 2], [cI 3]] := by decide
 example (n x : String) : fieldIndex [⟨"c", n, false, [], 0, true, ""⟩, ⟨"s", n, false, [], 0, true, ""⟩, ⟨"s", x, false, [], 0, true, ""⟩] none n = .error .ambiguous := by
-  simp [fieldIndex, fieldIndexGo, fieldMatches, joinWins, colEq, eqFold]
+  simp [fieldIndex, fieldIndexGo, fieldMatches, joinWins, colEq]
 example (n : String) : fieldIndex [⟨"", n, true, [], 0, true, ""⟩, ⟨"c", n, false, [], 0, true, ""⟩] none n = .ok 0 := by
-  simp [fieldIndex, fieldIndexGo, fieldMatches, joinWins, colEq, eqFold]
+  simp [fieldIndex, fieldIndexGo, fieldMatches, joinWins, colEq]
 -- `SELECT v AS k, k AS …`: the alias given to v makes the following unqualified k ambiguous
 example (k v : String) (hk : trimSpace k = k) :
     fieldIndex [⟨"t", k, false, [], 0, true, ""⟩, ⟨"t", v, false, [k], 0, true, ""⟩] none k = .error .ambiguous := by
-  simp [fieldIndex, fieldIndexGo, fieldMatches, joinWins, colEq, eqFold, hk]
-example (t : String) : tableKind none [t] [t] t = .cte := by simp [tableKind, nameIn, eqFold]
+  simp [fieldIndex, fieldIndexGo, fieldMatches, joinWins, colEq, hk]
+example (t : String) : tableKind none [t] [t] t = .cte := by simp [tableKind, nameIn]
 example : outerImpl .left 1 2 [[[cI 1]], [[cI 2]]] [] (fun _ => .T) = [[cI 1, nullP, nullP], [cI 2, nullP, nullP]] := by decide
 
 end Csvq.C03
